@@ -22,6 +22,17 @@ type Recorder struct {
 	OnPoint func(label string)
 	Points  int
 	inside  bool
+
+	// Fail, if set, is asked before every mutating OS call (same labels as the
+	// points): a non-nil error is returned to LiteFS instead of making the call.
+	Fail func(label string) error
+}
+
+func (r *Recorder) fail(label string) error {
+	if r == nil || r.Fail == nil {
+		return nil
+	}
+	return r.Fail(label)
 }
 
 // Point reports a step boundary.
@@ -55,20 +66,32 @@ type recOS struct {
 
 func (o *recOS) Create(op, name string) (*os.File, error) {
 	o.r.Point("os:create:" + op)
+	if err := o.r.fail("os:create:" + op); err != nil {
+		return nil, err
+	}
 	return o.u.Create(op, name)
 }
 func (o *recOS) Mkdir(op, path string, perm os.FileMode) error {
 	o.r.Point("os:mkdir:" + op)
+	if err := o.r.fail("os:mkdir:" + op); err != nil {
+		return err
+	}
 	return o.u.Mkdir(op, path, perm)
 }
 func (o *recOS) MkdirAll(op, path string, perm os.FileMode) error {
 	o.r.Point("os:mkdirall:" + op)
+	if err := o.r.fail("os:mkdirall:" + op); err != nil {
+		return err
+	}
 	return o.u.MkdirAll(op, path, perm)
 }
 func (o *recOS) Open(op, name string) (*os.File, error) { return o.u.Open(op, name) }
 func (o *recOS) OpenFile(op, name string, flag int, perm os.FileMode) (*os.File, error) {
 	if flag&(os.O_WRONLY|os.O_RDWR|os.O_CREATE|os.O_TRUNC) != 0 {
 		o.r.Point("os:openfile:" + op)
+		if err := o.r.fail("os:openfile:" + op); err != nil {
+			return nil, err
+		}
 	}
 	return o.u.OpenFile(op, name, flag, perm)
 }
@@ -76,23 +99,38 @@ func (o *recOS) ReadDir(op, name string) ([]os.DirEntry, error) { return o.u.Rea
 func (o *recOS) ReadFile(op, name string) ([]byte, error)       { return o.u.ReadFile(op, name) }
 func (o *recOS) Remove(op, name string) error {
 	o.r.Point("os:remove:" + op)
+	if err := o.r.fail("os:remove:" + op); err != nil {
+		return err
+	}
 	return o.u.Remove(op, name)
 }
 func (o *recOS) RemoveAll(op, name string) error {
 	o.r.Point("os:removeall:" + op)
+	if err := o.r.fail("os:removeall:" + op); err != nil {
+		return err
+	}
 	return o.u.RemoveAll(op, name)
 }
 func (o *recOS) Rename(op, oldpath, newpath string) error {
 	o.r.Point("os:rename:" + op)
+	if err := o.r.fail("os:rename:" + op); err != nil {
+		return err
+	}
 	return o.u.Rename(op, oldpath, newpath)
 }
 func (o *recOS) Stat(op, name string) (os.FileInfo, error) { return o.u.Stat(op, name) }
 func (o *recOS) Truncate(op, name string, size int64) error {
 	o.r.Point("os:truncate:" + op)
+	if err := o.r.fail("os:truncate:" + op); err != nil {
+		return err
+	}
 	return o.u.Truncate(op, name, size)
 }
 func (o *recOS) WriteFile(op, name string, data []byte, perm os.FileMode) error {
 	o.r.Point("os:writefile:" + op)
+	if err := o.r.fail("os:writefile:" + op); err != nil {
+		return err
+	}
 	return o.u.WriteFile(op, name, data, perm)
 }
 
